@@ -199,6 +199,9 @@ class GT:
             role = 'two'
         else:
             role = 'site' if 'site' in (self.role, other.role) else 'block'
+        if self.role in ('block', 'diag') and other.role == 'site' and other.iso == 'R':
+            # a right-isometric site preserves the norm of what is attached to its left leg
+            self.w.norms.setdefault(tuple(self.word + other.word), self.w.unit_norm(self.word))
         return GT(self.w, self.scale * other.scale, self.word + other.word, role=role)
 
     def apply_mask(self, *args, axes=0):
@@ -231,7 +234,8 @@ class GMask:
                 return U, S, Vh
             u, s, v = w.atom('u~'), w.atom('s~'), w.atom('v~')
             kept = w.world_kept(self)
-            return (GT(w, U.scale, (u,), U.role, iso=U.iso), GT(w, kept / w.unit_norm((s,)), (s,), 'diag'), GT(w, Vh.scale, (v,), Vh.role, iso=Vh.iso))
+            w.norms[(s,)] = 1.0                          # the atom s~ is the kept spectrum scaled to unit norm
+            return (GT(w, U.scale, (u,), U.role, iso=U.iso), GT(w, kept, (s,), 'diag'), GT(w, Vh.scale, (v,), Vh.role, iso=Vh.iso))
         w.require('mask-applied-to-U,S,V', False)
         return tensors
 
@@ -302,6 +306,9 @@ def stub_ncon(world):
         ax_site = (-0, -1, 1) if world.nr_phys == 1 else (-0, -1, 1, -3)
         world.require('ncon-attaches-block-to-the-right-virtual-leg', And(len(ts) == 2, tuple(inds[0]) == ax_site, tuple(inds[1]) == (1, -2),
                                                                           A.role == 'site', C.role in ('block', 'diag')))
+        if A.iso == 'L':
+            # a left-isometric site preserves the norm of what is attached to its right leg
+            world.norms.setdefault(tuple(A.word + C.word), world.unit_norm(C.word))
         return GT(world, A.scale * C.scale, A.word + C.word, 'site')
     return ncon
 
